@@ -20,9 +20,10 @@ WildSet == {Wild[i] : i \in 1..Len(Wild)}
 Bindings == {"none", "empty", "str", "str_kw", "str_inject", "float", "float_huge", "int", "int_min", "bool_t", "bool_f",
              "dur_str", "dur_bad", "dur_overflow", "dur_int", "regex", "regex_bad", "ident", "ident_kw", "ident_empty",
              "obj_string", "obj_float_int", "obj_int", "obj_int_wrongtype", "json_int", "json_float", "json_bad", "json_bigint",
-             "obj_two", "obj_unknown", "unbindable", "nil", "other_name"}
+             "obj_two", "obj_unknown", "unbindable", "nil", "other_name",
+             "dur_cut_micro", "dur_micro_only", "dur_digits_last", "dur_ff", "str_badutf8", "regex_badutf8", "ident_badutf8"}
 
-FewBindings == {"none", "str_inject", "int", "regex", "regex_bad", "ident_kw", "dur_bad", "unbindable"}
+FewBindings == {"none", "str_inject", "int", "regex", "regex_bad", "ident_kw", "dur_bad", "unbindable", "dur_cut_micro"}
 
 \* base statements as spelled tokens (tight pieces are pre-joined)
 Base == <<
@@ -72,7 +73,8 @@ TBase == <<
 Families == <<"fill_paren", "time_paren", "arg_paren", "paren", "paren_where", "call", "subquery", "neg", "fields", "sources", "and_chain", "or_and_chain", "arith_chain",
               "ws_run", "comment_run", "line_comment_run", "long_comment", "long_ident", "long_quoted_ident", "long_string",
               "long_number", "long_duration", "long_regex", "statements", "semicolons", "dims", "segments", "taglist",
-              "destinations", "unterminated_string", "unterminated_comment", "open_parens", "dollars", "bad_bytes">>
+              "destinations", "unterminated_string", "unterminated_comment", "open_parens", "dollars", "bad_bytes",
+              "into_dots_colon", "into_dots_regex", "from_dots_regex", "now_calls", "empty_calls_query">>
 
 VARIABLES seq, done
 vars == <<seq, done>>
@@ -102,7 +104,7 @@ Muts(s) == {s} \cup {Del(s, i) : i \in 1..Len(s)} \cup {Dup(s, i) : i \in 1..Len
                \cup {Trunc(s, i) : i \in 1..Len(s)} \cup {Repl(s, i, w) : i \in 1..Len(s), w \in WildSet}
 MutStep == /\ Part = "mut" /\ ~done
            /\ \A k \in 1..Len(Base) : \A m \in Muts(Base[k]) :
-                \A b \in (IF HasBP(m) THEN {"none", "str", "int", "regex", "ident", "dur_str", "regex_bad", "unbindable"} ELSE {"none"}) :
+                \A b \in (IF HasBP(m) THEN {"none", "str", "int", "regex", "ident", "dur_str", "regex_bad", "unbindable", "dur_cut_micro", "dur_ff", "regex_badutf8"} ELSE {"none"}) :
                   Emit([part |-> "mut", toks |-> ToksG(m, "L"), bind |-> b, base |-> k])
            /\ \A k \in 1..Len(TBase) : \A m \in Muts(TBase[k]) : Emit([part |-> "mut", toks |-> ToksG(m, "T"), bind |-> "none", base |-> 100 + k])
            /\ done' = TRUE /\ UNCHANGED seq
